@@ -8,8 +8,15 @@ Only the property theorems (and their non-vacuity examples) live here. All state
 `J5V.Schema.Export` (the model of `ToJ5Root / ToJ5Field` and of `schema_from_desc.go`), for
 **every** field schema, root schema and schema set; no bound on sizes or nesting.
 
-`wfField / wfRoot` is the only hypothesis: an integer / float scalar carries one of the formats
-the importer knows (`intKinds`, `floatKinds`); the reader never builds another one.
+Hypotheses. Field / root level: `wfField / wfRoot` — an integer / float scalar carries one of the
+formats the importer knows (`intKinds`, `floatKinds`); that the reader never builds another one is
+`C18_reader_formats_importable`. Set level (`C15_fixpoint_set`, `C15_refs_link`): additionally
+`SetWF s` (package names and schema keys unique) and `Closed s` (every reference held by a schema
+of the set names a schema of the set). **These two are hypotheses, not derived**: there is no
+theorem from C18's reader output (`Reg`) to `SetWF ∧ Closed` of the corresponding `SSet` (the
+ingredients would be `C18_names_unique` / `C18_refs_linked`); on the Go side they are exercised by
+the `schema.loop` stream only (the set dumped by the real reader is the model's input, and the
+oracle `unlinked-ref` / `import-error` fires if a reference does not resolve).
 -/
 namespace J5V.Props.C15
 open J5V.Go J5V.Schema
@@ -142,8 +149,8 @@ theorem C15_list_rules_kept (pkg : String) (od : Bool) (types : List String) (lr
 
 A schema set as Go holds it (`SSet`: packages by name, schemas by key). `SetWF` = map keys are
 unique and scalars carry importable formats; `Closed` = every reference held by a schema of the
-set names a schema of the set (true of every set the reader returns: referenced messages and
-enums are reflected with the referrer). -/
+set names a schema of the set (expected of every set the reader returns — referenced messages and
+enums are reflected with the referrer — but NOT proved from the reader model: see the file header). -/
 
 /-- `export (import (export s)) = export s` for a whole set, **with every reference resolved**:
 `PackageSetFromSourceAPI` (all packages, then `assertRefsLink` on each) accepts the export of the
